@@ -120,6 +120,7 @@ fn run_lalrpop(ctx: &Ctx, dir: &std::path::Path, text: &str, cfg: Cfg4) -> Obser
 }
 
 struct CaseOut {
+    spec: GSpec,
     text: String,
     tags: Vec<&'static str>,
     mv: Result<ModelVerdict, String>,
@@ -133,6 +134,10 @@ fn eval_tape(ctx: &Ctx, idx: usize, tape_bytes: &[u8], sub: &str) -> CaseOut {
 fn eval_tape_cfgs(ctx: &Ctx, idx: usize, tape_bytes: &[u8], sub: &str, cfgs: &[Cfg4]) -> CaseOut {
     let mut t = Tape::new(tape_bytes);
     let (spec, tags) = gen::gen_cfg(&mut t);
+    eval_spec_cfgs(ctx, idx, spec, tags, sub, cfgs)
+}
+
+fn eval_spec_cfgs(ctx: &Ctx, idx: usize, spec: GSpec, tags: Vec<&'static str>, sub: &str, cfgs: &[Cfg4]) -> CaseOut {
     let mv = model_verdict(&spec);
     let mut obs = vec![];
     let text_plain = spec.print(PrintCfg::new(false, false));
@@ -145,7 +150,7 @@ fn eval_tape_cfgs(ctx: &Ctx, idx: usize, tape_bytes: &[u8], sub: &str, cfgs: &[C
             obs.push((cfg, o));
         }
     }
-    CaseOut { text: text_plain, tags, mv, obs }
+    CaseOut { text: text_plain, tags, mv, obs, spec }
 }
 
 /// (signature, what) of the first disagreement of a case, if any
@@ -213,6 +218,7 @@ fn replay_json(tape_bytes: &[u8], c: &CaseOut, cfg: Cfg4) -> Value {
     };
     json!({
         "tape_hex": tape::hex(tape_bytes),
+        "spec": serde_json::to_value(&c.spec).unwrap_or(Value::Null),
         "grammar": c.text,
         "config": cfg.name(),
         "model": mvs,
@@ -221,13 +227,20 @@ fn replay_json(tape_bytes: &[u8], c: &CaseOut, cfg: Cfg4) -> Value {
 }
 
 fn replay_case(ctx: &Ctx, ck: &mut Checker, v: &Value) {
+    // self-contained: the stored grammar spec is re-evaluated (the tape is kept for reference)
     let tp = tape::unhex(v["tape_hex"].as_str().unwrap_or(""));
-    let c = eval_tape(ctx, 0, &tp, "replay");
+    let c = match serde_json::from_value::<GSpec>(v["spec"].clone()) {
+        Ok(spec) => eval_spec_cfgs(ctx, 0, spec, vec![], "replay", &Cfg4::ALL),
+        Err(_) => {
+            let c = eval_tape(ctx, 0, &tp, "replay");
+            if Some(c.text.as_str()) != v["grammar"].as_str() {
+                ck.infra("pinned replay without a stored spec: the tape no longer decodes to the stored grammar text; regenerate the repro");
+                return;
+            }
+            c
+        }
+    };
     ck.eval();
-    if Some(c.text.as_str()) != v["grammar"].as_str() {
-        ck.infra("pinned replay: tape no longer decodes to the stored grammar text (generator changed); regenerate the repro");
-        return;
-    }
     for (sig, what, cfg) in judge(&c) {
         ck.violation(&sig, &what, replay_json(&tp, &c, cfg));
     }
